@@ -201,6 +201,34 @@ func scenarios() []scenario {
 			reader("api-stat-A")
 			reader("api-stat-B")
 		}},
+		{Name: "two-stat-readers+long-lived-stream", Build: func(w *world.W, e *sched.Exec) {
+			// a stream that has been live for more than half a minute (its per-second frame history is full): two
+			// API clients hold and read what the stat calls gave them while the other one asks again
+			logic.VerifFillFps(w.SM, "live", "s", w.Now().Unix())
+			reader := func(name string) {
+				e.Go(name, func() {
+					n := 0
+					g1 := w.SM.StatGroup("s")
+					all := w.SM.StatAllGroup()
+					g2 := w.SM.StatGroup("s")
+					for _, g := range []*base.StatGroup{g1, g2} {
+						if g != nil {
+							for _, f := range g.Fps {
+								n += int(f.V) + int(f.UnixSec)
+							}
+						}
+					}
+					for i := range all {
+						for _, f := range all[i].Fps {
+							n += int(f.V)
+						}
+					}
+					statSink(n)
+				})
+			}
+			reader("api-stat-A")
+			reader("api-stat-B")
+		}},
 		{Name: "two-publishers+player", Build: func(w *world.W, e *sched.Exec) {
 			rtmpThread(w, e, "publisherA", rtmpScript("publish", "s", mediaMsgs(1)))
 			rtmpThread(w, e, "publisherB", rtmpScript("publish", "s", mediaMsgs(1)))
